@@ -69,6 +69,7 @@ func (c *Ctx) ruleRatchets(cid string) {
 	c.ruleOrderRatchet("E6.order-ratchet", pkgs, filter, "baselines/calls.json", 5)
 	c.ruleConditionRatchet("E6.condition-ratchet", pkgs, filter, "baselines/conds.json", 5)
 	c.ruleAlwaysRatchet("E6.always-ratchet", pkgs, filter, "baselines/calls.json", 5)
+	c.ruleArgumentRatchet("E6.argument-ratchet", pkgs, filter, "baselines/callargs.json", 5)
 	c.ruleReadRatchet("E6.read-ratchet", pkgs, filter, "baselines/readguard.json", 5)
 	c.ruleGuardRatchet("E6.guard-ratchet", pkgs, filter, "baselines/readguard.json", 5)
 	c.ruleWriteRatchet("E2.write-ratchet", pkgs, filter, "baselines/writes.json", 5)
